@@ -239,8 +239,8 @@ def mini_conn(mini):
     return _CONN_OF.get(id(mini))
 
 
-def alg_kw(kex, enc, mac):
-    kw = {'kex_algs': [kex.decode()], 'encryption_algs': [enc.decode()], 'compression_algs': ['none']}
+def alg_kw(kex, enc, mac, comp=b'none'):
+    kw = {'kex_algs': [kex.decode()], 'encryption_algs': [enc.decode()], 'compression_algs': [comp.decode()]}
     if mac:
         kw['mac_algs'] = [mac.decode()]
     return kw
@@ -298,14 +298,14 @@ def crypto_key(alg):
 
 
 async def mini_as_client(kex, enc, mac, *, hostkey=b'ssh-ed25519', chunk=None, rekey=None, strict=True,
-                         sizes=SIZES):
+                         sizes=SIZES, comp=b'none'):
     """MiniSSH client against an asyncssh server.  rekey: None | 'mini' | 'asyncssh'."""
     seen_keys = []
     mini = M.MiniSSH('client', kex_algs=[kex], enc_algs=[enc], mac_algs=[mac] if mac else None,
-                     hostkey_algs=[hostkey], strict_kex=strict,
+                     hostkey_algs=[hostkey], strict_kex=strict, comp_algs=(comp,),
                      host_key=lambda blob: seen_keys.append(blob) or True)
     link = Link(mini, chunk)
-    kw = alg_kw(kex, enc, mac)
+    kw = alg_kw(kex, enc, mac, comp)
     if rekey == 'asyncssh':
         kw['rekey_bytes'] = 8192
     key_alg = 'ssh-rsa' if hostkey.startswith(b'rsa-') else hostkey.decode()
@@ -380,14 +380,14 @@ Link.serve_client = _serve_client
 
 
 async def mini_as_server(kex, enc, mac, *, hostkey=b'ssh-ed25519', chunk=None, rekey=None, strict=True,
-                         sizes=SIZES, k_shape=None):
+                         sizes=SIZES, k_shape=None, comp=b'none'):
     """MiniSSH server against an asyncssh client."""
     mini = M.MiniSSH('server', host_key=crypto_key(b'ssh-rsa' if hostkey.startswith(b'rsa-') else hostkey),
                      kex_algs=[kex], enc_algs=[enc], mac_algs=[mac] if mac else None, hostkey_algs=[hostkey],
-                     strict_kex=strict)
+                     strict_kex=strict, comp_algs=(comp,))
     mini.k_shape = k_shape
     link = Link(mini, chunk)
-    kw = alg_kw(kex, enc, mac)
+    kw = alg_kw(kex, enc, mac, comp)
     if rekey == 'asyncssh':
         kw['rekey_bytes'] = 8192
     connect = asyncio.ensure_future(asyncssh.connect(
